@@ -1,5 +1,5 @@
 (* C04 property theorems: statements + `exact lemma` only. *)
-From CJ Require Import Common.Base C04.Model C04.Proofs C04.ProofsT C04.ProofsPaced.
+From CJ Require Import Common.Base C04.Model C04.Proofs C04.ProofsT C04.ProofsPaced C04.ProofsHyp.
 Local Open Scope nat_scope.
 
 (* For every registered client, every enabled wrapping transport t, every way the bytes
@@ -54,3 +54,20 @@ Theorem C04_prefix_table_wf_sound :
     NoDup (map p_id tbl).
 Proof. exact prefix_table_wf_sound. Qed.
 Print Assumptions C04_prefix_table_wf_sound.
+
+(* All hypotheses of C04_segmentation_invariance are decidable for a concrete flight
+   (`flight_hypsb`); where the boolean is true the conclusion holds for every segmentation.  The
+   correspondence run evaluates it on every recorded genuine flight (with the oracle values observed
+   on the real code as cryptography), so each recorded flight is covered by the theorem for all
+   segmentations, not only for the one that was executed. *)
+Theorem C04_decided_flight_invariant :
+  forall (reveal : bytes -> list bytes) (mark : reginfo -> bytes -> bytes) (hs_ok : reginfo -> bytes -> bool)
+         tbl R tracked ts t r fl data,
+    flight_hypsb reveal mark hs_ok tbl R tracked ts t r fl data = true ->
+    forall reads, concat reads = fl ++ data ->
+      exists b rest cs,
+        feed (cwrap reveal mark hs_ok tbl R) (init tracked ts) reads = (HDecided cs b, rest) /\
+        cs <> [] /\ Forall (fun x => x = (t, WFound r (length fl))) cs /\
+        relay_stream (length fl) b rest = data.
+Proof. exact decided_flight_invariant. Qed.
+Print Assumptions C04_decided_flight_invariant.
